@@ -266,6 +266,8 @@ func (x *Exec) havocLocation(env *specEnv, st *State, a *SpecExpr) {
 		hn, vn := mh.has, mh.val
 		H := x.heapGet(st, hn, arraySort(SInt, arraySort(ks, SBool)))
 		V := x.heapGet(st, vn, arraySort(SInt, arraySort(ks, vs)))
+		x.writeAt(st, hn, v, false)
+		x.writeAt(st, vn, v, false)
 		x.heapSet(st, hn, store(H, v, x.ctx.Fresh("has", arraySort(ks, SBool))))
 		x.heapSet(st, vn, store(V, v, x.ctx.Fresh("val", arraySort(ks, vs))))
 		return
@@ -285,6 +287,7 @@ func (x *Exec) havocLocation(env *specEnv, st *State, a *SpecExpr) {
 		}
 		hn := fieldHeapName(si, f)
 		H := x.heapGet(st, hn, arraySort(SInt, f.Sort))
+		x.writeAt(st, hn, base, false)
 		x.heapSet(st, hn, store(H, base, x.ctx.Fresh(f.Name, f.Sort)))
 		return
 	case "unary":
@@ -297,6 +300,7 @@ func (x *Exec) havocLocation(env *specEnv, st *State, a *SpecExpr) {
 					f := &si.Fields[i]
 					hn := fieldHeapName(si, f)
 					H := x.heapGet(st, hn, arraySort(SInt, f.Sort))
+					x.writeAt(st, hn, p, false)
 					x.heapSet(st, hn, store(H, p, x.ctx.Fresh(f.Name, f.Sort)))
 				}
 				return
@@ -304,6 +308,7 @@ func (x *Exec) havocLocation(env *specEnv, st *State, a *SpecExpr) {
 			s := x.sortOf(elem)
 			hn := ptrHeapName(s)
 			H := x.heapGet(st, hn, arraySort(SInt, s))
+			x.writeAt(st, hn, p, false)
 			x.heapSet(st, hn, store(H, p, x.ctx.Fresh("pointee", s)))
 			return
 		}
@@ -742,10 +747,7 @@ func (x *Exec) checkPost(st *State, fr *frame, pos token.Pos) {
 		o := x.emit(st, "returns", e.Label, g, e.Props, "at every return: "+e.Text, pos)
 		o.ClauseText = e.Text
 	}
-	// frame: heaps not covered by the assigns clause are unchanged
-	if c.HasAssign {
-		x.checkFrame(st, pos)
-	}
+	// (the frame of the assigns clause is checked at every write: Exec.writeAt)
 	x.checkLocksReleased(st, pos)
 	// vacuity canary: "ensures false" must not be provable on a reachable return
 	if x.canaryCount < 6 {
@@ -793,26 +795,23 @@ func splitAnd(t Term) []Term {
 	return out
 }
 
-// checkFrame: every heap array that differs from the entry state must be permitted by assigns.
-func (x *Exec) checkFrame(st *State, pos token.Pos) {
+// frameLoc is a location the assigns clause permits to change.
+type frameLoc struct {
+	heap  string
+	whole bool
+	ref   Term
+}
+
+// frameLocs evaluates the assigns clause (in the entry state) to the permitted locations.
+func (x *Exec) frameLocs() []frameLoc {
+	if x.frameLocsDone {
+		return x.frameLocsCache
+	}
 	c := x.contract
 	old := x.entrySt
-	names := map[string]Sort{}
-	for n, t := range st.heap {
-		names[n] = t.Sort
-	}
-	keys := make([]string, 0, len(names))
-	for n := range names {
-		keys = append(keys, n)
-	}
-	sort.Strings(keys)
-	// permitted locations per heap
-	type loc struct {
-		heap  string
-		whole bool
-		ref   Term
-	}
-	var locs []loc
+	var locs []frameLoc
+	x.inFrameEval = true
+	defer func() { x.inFrameEval = false }()
 	envOld := x.funcEnv(old)
 	envOld.old = nil
 	for _, a := range c.Assigns {
@@ -830,7 +829,7 @@ func (x *Exec) checkFrame(st *State, pos token.Pos) {
 					if tn, ok := envOld.pkg.Types.Scope().Lookup(a.Args[0].Name).(*types.TypeName); ok {
 						si := x.structOf(tn.Type())
 						_, f := si.field(a.Name)
-						locs = append(locs, loc{heap: fieldHeapName(si, f), whole: true})
+						locs = append(locs, frameLoc{heap: fieldHeapName(si, f), whole: true})
 						return
 					}
 				}
@@ -838,20 +837,20 @@ func (x *Exec) checkFrame(st *State, pos token.Pos) {
 			if a.Kind == "call" && a.Args[0].Kind == "ident" && a.Args[0].Name == "fields" {
 				si := x.structOf(x.resolveType(envOld.pkg, specTypeText(a.Args[1])))
 				for i := range si.Fields {
-					locs = append(locs, loc{heap: fieldHeapName(si, &si.Fields[i]), whole: true})
+					locs = append(locs, frameLoc{heap: fieldHeapName(si, &si.Fields[i]), whole: true})
 				}
 				return
 			}
 			if a.Kind == "call" && a.Args[0].Kind == "ident" && a.Args[0].Name == "maps" {
 				mt := x.resolveType(envOld.pkg, specTypeText(a.Args[1])).Underlying().(*types.Map)
 				mh := x.mapHeap(mt)
-				locs = append(locs, loc{heap: mh.has, whole: true}, loc{heap: mh.val, whole: true})
+				locs = append(locs, frameLoc{heap: mh.has, whole: true}, frameLoc{heap: mh.val, whole: true})
 				return
 			}
 			if a.Kind == "ident" {
 				if _, isBound := envOld.binds[a.Name]; !isBound {
 					if v, ok := envOld.pkg.Types.Scope().Lookup(a.Name).(*types.Var); ok {
-						locs = append(locs, loc{heap: globalName(v), whole: true})
+						locs = append(locs, frameLoc{heap: globalName(v), whole: true})
 						return
 					}
 				}
@@ -860,9 +859,7 @@ func (x *Exec) checkFrame(st *State, pos token.Pos) {
 			t = x.subst(types.Unalias(t))
 			if mt, ok := t.Underlying().(*types.Map); ok {
 				mh := x.mapHeap(mt)
-				ks, vs := mh.ks, mh.vs
-				_, _ = ks, vs
-				locs = append(locs, loc{heap: mh.has, ref: v}, loc{heap: mh.val, ref: v})
+				locs = append(locs, frameLoc{heap: mh.has, ref: v}, frameLoc{heap: mh.val, ref: v})
 				return
 			}
 			switch a.Kind {
@@ -871,53 +868,74 @@ func (x *Exec) checkFrame(st *State, pos token.Pos) {
 				p := x.subst(types.Unalias(bt)).Underlying().(*types.Pointer)
 				si := x.structOf(p.Elem())
 				_, f := si.field(a.Name)
-				locs = append(locs, loc{heap: fieldHeapName(si, f), ref: base})
+				locs = append(locs, frameLoc{heap: fieldHeapName(si, f), ref: base})
 			case "unary":
 				p, pt := envOld.eval(a.Args[0])
 				elem := pt.Underlying().(*types.Pointer).Elem()
 				ms := newModSet()
 				x.modsOfType(elem, ms)
 				for h := range ms.heaps {
-					locs = append(locs, loc{heap: h, ref: p})
+					locs = append(locs, frameLoc{heap: h, ref: p})
 				}
 			default:
 				panic(specFail{"unsupported assigns target"})
 			}
 		}()
 	}
+	x.frameLocsCache, x.frameLocsDone = locs, true
+	return locs
+}
+
+// frameFormula: heap array n, now cur, agrees with its entry value on every cell that existed at
+// entry and is not permitted to change. ok=false when the whole array may change.
+func (x *Exec) frameFormula(n string, cur Term) (Term, bool) {
+	old := x.entrySt
+	was := x.heapGet(old, n, cur.Sort)
+	if cur.S == was.S {
+		return tTrue, true
+	}
+	var refs []Term
+	for _, l := range x.frameLocs() {
+		if l.heap == n {
+			if l.whole {
+				return tTrue, false
+			}
+			refs = append(refs, l.ref)
+		}
+	}
+	if strings.HasPrefix(n, "G_") {
+		return eq(cur, was), true
+	}
+	var ex []string
+	for _, r := range refs {
+		ex = append(ex, fmt.Sprintf("(not (= r %s))", r.S))
+	}
+	guard := fmt.Sprintf("(and (< 0 r) (< r %s) %s)", old.alloc.S, strings.Join(ex, " "))
+	if len(ex) == 0 {
+		guard = fmt.Sprintf("(and (< 0 r) (< r %s))", old.alloc.S)
+	}
+	return Term{fmt.Sprintf("(forall ((r Int)) (! (=> %s (= (select %s r) (select %s r))) :pattern ((select %s r))))", guard, cur.S, was.S, cur.S), SBool}, true
+}
+
+// checkFrame: every heap array that differs from the entry state must be permitted by assigns.
+func (x *Exec) checkFrame(st *State, pos token.Pos) {
+	c := x.contract
+	names := map[string]Sort{}
+	for n, t := range st.heap {
+		names[n] = t.Sort
+	}
+	keys := make([]string, 0, len(names))
+	for n := range names {
+		keys = append(keys, n)
+	}
+	sort.Strings(keys)
 	for _, n := range keys {
-		cur := st.heap[n]
-		was := x.heapGet(old, n, names[n])
-		if cur.S == was.S {
+		if n == "G_bufContent" {
+			continue // (the buffer-content ghost heap of the text/template model is not program state)
+		}
+		goal, ok := x.frameFormula(n, st.heap[n])
+		if !ok || goal.S == "true" {
 			continue
-		}
-		whole := false
-		var refs []Term
-		for _, l := range locs {
-			if l.heap == n {
-				if l.whole {
-					whole = true
-				}
-				refs = append(refs, l.ref)
-			}
-		}
-		if whole {
-			continue
-		}
-		var goal Term
-		if strings.HasPrefix(n, "G_") {
-			goal = eq(cur, was)
-		} else {
-			// forall r: r allocated before the call and not a permitted reference => unchanged
-			var ex []string
-			for _, r := range refs {
-				ex = append(ex, fmt.Sprintf("(not (= r %s))", r.S))
-			}
-			guard := fmt.Sprintf("(and (< 0 r) (< r %s) %s)", old.alloc.S, strings.Join(ex, " "))
-			if len(ex) == 0 {
-				guard = fmt.Sprintf("(and (< 0 r) (< r %s))", old.alloc.S)
-			}
-			goal = Term{fmt.Sprintf("(forall ((r Int)) (=> %s (= (select %s r) (select %s r))))", guard, cur.S, was.S), SBool}
 		}
 		x.emit(st, "frame", n, goal, c.Props, "nothing outside the assigns clause changes in "+n, pos)
 	}
